@@ -79,6 +79,14 @@ func (r *replica) updateLatestOffset(offset int64) (updated bool) {
 	return
 }
 
+// setLatestOffset sets the replica's latest log offset to the given offset,
+// which may be lower than the current one.
+func (r *replica) setLatestOffset(offset int64) {
+	r.mu.Lock()
+	r.offset = offset
+	r.mu.Unlock()
+}
+
 // getLatestOffset returns the replica's latest log offset.
 func (r *replica) getLatestOffset() int64 {
 	r.mu.RLock()
@@ -848,7 +856,10 @@ func (p *partition) becomeLeader(epoch uint64) error {
 		// Also update the protobuf ISR list for persistence.
 		p.Isr = append(p.Isr, p.srv.config.Clustering.ServerID)
 	}
-	rep.updateLatestOffset(p.log.NewestOffset())
+	// The offsets replicas reported while this server was leader in an earlier
+	// term say nothing about what they hold now since every replica,
+	// including this one, may have truncated its log in the meantime.
+	p.resetISRProgress()
 
 	// Start message processing loop.
 	recvChan := make(chan *nats.Msg, recvChannelSize)
@@ -941,6 +952,19 @@ func (p *partition) stopLeading() error {
 	p.isLeading = false
 
 	return nil
+}
+
+// resetISRProgress forgets the latest offsets of the replicas in the ISR. The
+// leader's own offset is the end of its log, the followers report theirs with
+// their replication requests.
+func (p *partition) resetISRProgress() {
+	for id, rep := range p.isr {
+		if id == p.srv.config.Clustering.ServerID {
+			rep.setLatestOffset(p.log.NewestOffset())
+		} else {
+			rep.setLatestOffset(-1)
+		}
+	}
 }
 
 // becomeFollower is called when the server has become a follower for this
